@@ -358,16 +358,25 @@ func report(prop, tier string, seed int, ip *InvProp, res *checkResult, partial 
 		if anyRelevant == 0 && len(vc.unsup) == 0 {
 			addViol(vc.name+"#vacuous", map[string]interface{}{"function": vc.name, "error": "function in the inventory generated zero obligations for this property"}, true)
 		}
-		// vacuity: at least one exit must be reachable
-		if ef.Covers > 0 {
-			ok := 0
+		// vacuity: every return and every loop body must be reachable under the contracts in force
+		// (a contradictory precondition, invariant or callee contract shows up as an unreachable cover);
+		// exits that are unreachable for a good reason are declared with `unreachable_ok N`.
+		if ef.Covers > 0 && !scriptErr {
+			dead := 0
+			var deadDesc []string
 			for _, ob := range vc.obligs {
-				if ob.IsCover && strings.HasPrefix(ob.Desc, "return") && ob.Status != "refuted" {
-					ok++
+				if ob.IsCover && ob.Status == "refuted" {
+					dead++
+					deadDesc = append(deadDesc, ob.Desc)
 				}
 			}
-			if ok == 0 {
-				addViol(vc.name+"#vacuous", map[string]interface{}{"function": vc.name, "error": "no return of the function is reachable under its precondition and invariants (vacuous contract)"}, true)
+			allowed := 0
+			if vc.spec != nil {
+				allowed = vc.spec.UnreachableOK
+			}
+			if dead > allowed {
+				addViol(vc.name+"#vacuous", map[string]interface{}{"function": vc.name, "unreachable": deadDesc, "allowed": allowed,
+					"error": "program points are unreachable under the contracts (contradictory precondition, invariant or callee contract, or dead code): the proofs after them are vacuous"}, true)
 			}
 		}
 		funcs = append(funcs, ef)
